@@ -1,5 +1,81 @@
 """C10 end-to-end knob grid on the real implementation (own oracle of the property)."""
+from e2e import canon, try_, _short
 
 
 def run(run, suspicious):
-    pass
+    import rt
+    import numpy as np
+    import pandas as pd
+    quick = run.tier == "quick"
+    n = 60
+    rng = run.rng
+    pdf = pd.DataFrame({"k": [rng.randint(0, 8) for _ in range(n)], "j": [rng.randint(0, 2) for _ in range(n)],
+                        "x": [float(rng.randint(0, 9)) if rng.random() > 0.1 else np.nan for _ in range(n)], "y": [rng.randint(0, 20) for _ in range(n)]})
+    small = pd.DataFrame({"k": list(range(9)), "v": [i * 10 for i in range(9)]})
+    ncase = 0
+    nparts = (1, 3, 9) if quick else (1, 2, 3, 5, 9, 17, 33)     # both sides of split_every / max_branch / broadcast thresholds
+    for npart in nparts:
+        df = rt.dx.from_pandas(pdf, npartitions=npart)
+        sm1 = rt.dx.from_pandas(small, npartitions=1)
+        sm3 = rt.dx.from_pandas(small, npartitions=min(3, npart))
+        queries = {
+            # name: (baseline thunk, {variant name: thunk}, ordered, labels)
+            "sum": (lambda: df[["x", "y"]].sum(), {"split_every=%s" % s: (lambda s=s: df[["x", "y"]].sum(split_every=s)) for s in (False, 2, 3, 8)}, True, True),
+            "mean": (lambda: df.x.mean(), {"split_every=%s" % s: (lambda s=s: df.x.mean(split_every=s)) for s in (False, 2, 8)}, True, True),
+            "count-max": (lambda: df.count().sum() + df.y.max(), {"split_every=%s" % s: (lambda s=s: df.count(split_every=s).sum() + df.y.max(split_every=s)) for s in (2, 4)}, True, True),
+            "groupby-sum": (lambda: df.groupby("k").x.sum(), dict(
+                [("split_every=%s" % s, (lambda s=s: df.groupby("k").x.sum(split_every=s))) for s in (2, 3, 8)] +
+                [("split_out=%s" % s, (lambda s=s: df.groupby("k").x.sum(split_out=s))) for s in (1, 2, 4, True)] +
+                [("split_out=2,method=%s" % m, (lambda m=m: df.groupby("k").x.sum(split_out=2, shuffle_method=m))) for m in ("tasks", "disk")]), False, True),
+            "groupby-agg": (lambda: df.groupby(["k", "j"]).agg({"x": "mean", "y": "max"}), dict(
+                [("split_out=%s" % s, (lambda s=s: df.groupby(["k", "j"]).agg({"x": "mean", "y": "max"}, split_out=s))) for s in (1, 3)] +
+                [("split_every=%s" % s, (lambda s=s: df.groupby(["k", "j"]).agg({"x": "mean", "y": "max"}, split_every=s))) for s in (2, 5)]), False, True),
+            "unique": (lambda: df.k.unique(), {"split_out=%s" % s: (lambda s=s: df.k.unique(split_out=s)) for s in (1, 2, True)}, False, False),
+            "drop_duplicates": (lambda: df[["k", "j"]].drop_duplicates(), dict(
+                [("split_out=%s" % s, (lambda s=s: df[["k", "j"]].drop_duplicates(split_out=s))) for s in (1, 2, True)] +
+                [("split_every=%s" % s, (lambda s=s: df[["k", "j"]].drop_duplicates(split_every=s))) for s in (2, 4)]), False, False),
+            "value_counts": (lambda: df.k.value_counts(), {"split_out=%s" % s: (lambda s=s: df.k.value_counts(split_out=s)) for s in (1, 2)}, False, True),
+            "nunique": (lambda: df.k.nunique(), {"split_every=%s" % s: (lambda s=s: df.k.nunique(split_every=s)) for s in (2, 3)}, True, True),
+            "shuffle": (lambda: df.shuffle("k"), dict(
+                [("method=%s,max_branch=%s" % (m, b), (lambda m=m, b=b: df.shuffle("k", shuffle_method=m, **({"max_branch": b} if b else {})))) for m, b in (("tasks", None), ("tasks", 2), ("tasks", 3), ("tasks", 8), ("disk", None))] +
+                [("npartitions=%s" % p, (lambda p=p: df.shuffle("k", npartitions=p, shuffle_method="tasks", max_branch=2))) for p in (1, 2, npart + 3)]), False, True),
+            "merge": (lambda: df.merge(sm3, on="k"), dict(
+                [("broadcast=%s,method=%s" % (b, m), (lambda b=b, m=m: df.merge(sm3, on="k", broadcast=b, shuffle_method=m))) for b in (None, True, False, 0.1, 0.9) for m in ("tasks", "disk")] +
+                [("npartitions=%s" % p, (lambda p=p: df.merge(sm3, on="k", npartitions=p, shuffle_method="tasks"))) for p in (1, 2, 7)] +
+                [("single-partition-right", (lambda: df.merge(sm1, on="k")))]), False, False),
+            "merge-left": (lambda: df.merge(sm3, on="k", how="left"), {"broadcast=%s" % b: (lambda b=b: df.merge(sm3, on="k", how="left", broadcast=b, shuffle_method="tasks")) for b in (True, False, 0.9)}, False, False),
+            "sort_values": (lambda: df.sort_values(["y", "k", "j", "x"]), dict(
+                [("npartitions=%s" % p, (lambda p=p: df.sort_values(["y", "k", "j", "x"], npartitions=p))) for p in (1, 2, 5)] +
+                [("upsample=%s" % u, (lambda u=u: df.sort_values(["y", "k", "j", "x"], upsample=u))) for u in (0.5, 2.0)] +
+                [("method=%s" % m, (lambda m=m: df.sort_values(["y", "k", "j", "x"], shuffle_method=m))) for m in ("tasks", "disk")]), True, True),
+            "set_index": (lambda: df.set_index("y"), dict(
+                [("npartitions=%s" % p, (lambda p=p: df.set_index("y", npartitions=p))) for p in (1, 2, 5)] +
+                [("upsample=%s" % u, (lambda u=u: df.set_index("y", upsample=u))) for u in (0.5, 2.0)] +
+                [("method=%s" % m, (lambda m=m: df.set_index("y", shuffle_method=m))) for m in ("tasks", "disk")]), False, True),
+        }
+        for qn, (base, variants, ordered, labels) in queries.items():
+            b = try_(lambda: base().compute())
+            if b[0] == "raise":
+                continue
+            def cn(x):
+                if qn == "sort_values":
+                    # rows with completely equal sort keys may come in any order: compare the key sequence and the multiset of rows
+                    c1 = canon(x, True, labels)
+                    return (c1[0], c1[1], [r[1:] for r in c1[2]], sorted(c1[2], key=repr))
+                return canon(x, ordered, labels)
+            bc = cn(b[1])
+            for vn, thunk in variants.items():
+                for fuse in (True, False):
+                    if quick and not fuse and hash((qn, vn)) % 3:
+                        continue
+                    ncase += 1
+                    run.count(("knob", npart, qn, vn, fuse))
+                    v = try_(lambda: thunk().optimize(fuse=fuse).compute())
+                    case = {"kind": "knob", "npartitions": npart, "query": qn, "variant": vn, "fuse": fuse}
+                    if v[0] == "raise":
+                        run.violation("%s with %s (npartitions=%d, fuse=%s) raises %s; default knobs compute" % (qn, vn, npart, fuse, v[1]), case)
+                        continue
+                    vc = cn(v[1])
+                    if vc != bc:
+                        run.violation("%s with %s (npartitions=%d, fuse=%s) differs from the default-knob result: %s vs %s" % (qn, vn, npart, fuse, _short(vc), _short(bc)), case)
+    run.section("knob_grid", cases=ncase, partition_counts=list(nparts))
